@@ -390,6 +390,7 @@ F_TEDDY = ["packed::teddy::builder::Searcher::find", "SlimSSSE3::find", "teddy::
            "teddy::generic::Teddy::{verify,verify64,verify_bucket}", "Mask::members*", "impl Vector for __m128i (packed::vector)",
            "Pattern::{is_prefix_raw,is_equal_raw}"]
 STUB_SIMD = [("core::arch::x86_64::_mm_shuffle_epi8", "crate::stubs::pshufb_model"),
+             ("core::arch::x86_64::_mm256_shuffle_epi8", "crate::stubs::pshufb256_model"),
              ("core::arch::x86_64::__cpuid_count", "crate::stubs::cpuid_stub")]
 
 
@@ -473,6 +474,8 @@ def h_pk_teddy(prop, case, facts, length, off, w, pad, timeout=2400, mem_gb=20):
             assert not (bt & 0xF == pad_lo and bt >> 4 == pad_hi), "pad byte occurs in a fingerprint"
     uws[("8verify64", 0)] = w * max(1, f["teddy_nonempty_buckets"]) + 1
     uws[("13verify_bucket", 0)] = f["max_teddy_bucket"] + 1
+    if f.get("teddy_variant"):
+        uws[("_mm256_shuffle_epi8", None)] = 34  # the lane model of vpshufb: 32 lanes
     return Harness(name, case, body, unwind, schema, meta, timeout=timeout, mem_gb=mem_gb,
                    functions=F_TEDDY + F_RK, stubs=STUB_SIMD, unwindset=uws)
 
@@ -1251,7 +1254,17 @@ def _schedule(prop, tier, seed):
                   PackedCase(prop.lower() + "ll_t2", ["ab", "abc"], mk="ll", force="teddy128")]
         if not quick:
             tcases += [PackedCase(prop.lower() + "lf_t3", ["abc", "bcd"], mk="lf", force="teddy128"),
-                       PackedCase(prop.lower() + "lf_t1c", ["a", "q", "A"], mk="lf", force="teddy128")]
+                       PackedCase(prop.lower() + "lf_t1c", ["a", "q", "A"], mk="lf", force="teddy128"),
+                       ]
+            if __import__("os").environ.get("VERIF_AVX2_PROBE"):
+                # NOT part of any registered command (see DESIGN 3 C06): fat Teddy and the 256-bit slim Teddy
+                # rebuilt from the natively dumped AVX2 searchers. All AVX2 intrinsics but vpshufb run under
+                # Kani (probed), the rebuild hooks and table dumps exist, but the first harnesses ended with
+                # "pointer to unallocated memory" inside Teddy::verify_bucket - a reconstruction problem that
+                # was not resolved in the time available.
+                tcases += [PackedCase(prop.lower() + "lf_fat1", [b"\xe9", "bc"], mk="lf", force="fat"),
+                           PackedCase(prop.lower() + "lf_fat2", ["ab", "bcd"], mk="lf", force="fat"),
+                           PackedCase(prop.lower() + "lf_s256", ["a", "bc"], mk="lf", force="teddy256")]
         cases += tcases
 
         def mk(facts):
@@ -1260,7 +1273,8 @@ def _schedule(prop, tier, seed):
                 f = facts[c.key]
                 if c in tcases:
                     m = f["teddy_bytes"]
-                    length = 16 + m - 1
+                    # shortest haystack the vector loop accepts: one vector (slim), half a vector (fat)
+                    length = (32 if f.get("teddy_variant") == 1 else 16) + m - 1
                     w = int(__import__("os").environ.get("VERIF_TEDDY_W", min(c.maxlen + 2, 4)))
                     wins = [(length + 1, length + 1 - w)] if quick else [(length, 0), (length, length - w), (length + 2, 14), (length + 2, length + 2 - w)]
                     if quick and c is tcases[1]:
